@@ -4,7 +4,7 @@ equivalent spaces to the next tab stop, whitespace-only lines instead of empty l
 characters, and extra blank lines before or after the document never change the output.
 
 Only property statements live here.  Helper lemmas are in `MdVerif/Lemmas/Normalize.lean`, the vocabulary of the
-statements (`respell`, `splitsCRLF`, `col`, `isBlankish`, `firstLineOk`, …) in `MdVerif/Spec/Normalize.lean`.
+statements (`respell`, `splitsCRLF`, `col`, `isBlankish`, …) in `MdVerif/Spec/Normalize.lean`.
 
 Shape: every statement is about `runSteps tab defaultSteps`, the interpreter of the step list of
 `NormalizeWhitespace.run` (`= normalize tab`, `C09_steps`): two source texts that differ only in one of the ways
@@ -14,9 +14,11 @@ that they come out as exactly that many extra empty lines (`C09_leading_blank`, 
 block parser ignores them is not part of this file.
 
 Exceptions that the statements had to make, each one checked against the implementation:
-* F-C09-1 (defect): `(?<=\n) +\n` cannot match at offset 0, so a whitespace-only **first** line is not emptied
-  (`C09_first_line_counterexample`); `C09_ws_line` therefore needs a line break before the line and
-  `C09_leading_blank` needs `firstLineOk`.
+* F-C09-1 (defect, REPAIRED in commit a0e7e3c): the former pattern `(?<=\n) +\n` could not match at offset 0, so a
+  whitespace-only **first** line was not emptied; `C09_ws_line` needed a line break before the line and
+  `C09_leading_blank` a side condition on the first line.  The repaired pattern `(?<![^\n]) +\n` also accepts the
+  start of the text: `C09_ws_first_line` is now a theorem, `C09_leading_blank` is unconditional, and the former
+  counterexample is the positive example `C09_first_line_example`.
 * inherent: `"\r"`, empty line, `"\n"` spells the single line break `"\r\n"` (`splitsCRLF`); a text ending in `\r`
   followed by `\n` likewise (`C09_trailing_blank`); `tab_length = 0` deletes tabs, which can join `\r` and `\n`.
 -/
@@ -132,12 +134,24 @@ theorem C09_ws_line (tab : Nat) (a ws b : Str) (hws : ∀ c ∈ ws, isBlankish c
 
 example : ∀ c ∈ " \t \x02  \t".toList, isBlankish c = true := by decide
 
-/-- **F-C09-1.**  The look-behind `(?<=\n)` fails at offset 0: a whitespace-only *first* line is kept, and the
-    document does not normalise like the one with an empty first line. -/
-theorem C09_first_line_counterexample :
-    runSteps 4 defaultSteps "    \nfoo".toList ≠ runSteps 4 defaultSteps "\nfoo".toList := by decide
+/-- **Whitespace-only first line.**  The first line needs no line break in front of it: a document whose first line
+    is made of spaces, tabs (and STX/ETX) normalises like the document with an empty first line — for every tab
+    length.  (Before the repair a0e7e3c this was false: finding F-C09-1.) -/
+theorem C09_ws_first_line (tab : Nat) (ws b : Str) (hws : ∀ c ∈ ws, isBlankish c = true) :
+    runSteps tab defaultSteps (ws ++ '\n' :: b) = runSteps tab defaultSteps ('\n' :: b) :=
+  normalize_ws_first_line tab ws b hws
 
-example : normalize 4 "    \nfoo".toList ≠ normalize 4 "\nfoo".toList := by decide
+example : ∀ c ∈ "  \t\x03 ".toList, isBlankish c = true := by decide
+
+/-- **Formerly F-C09-1.**  Up to commit a0e7e3c the look-behind `(?<=\n)` failed at offset 0, a whitespace-only
+    *first* line was kept, and these two documents normalised differently (the kernel-checked statement here was
+    the inequality).  With the repaired pattern `(?<![^\n]) +\n` they normalise alike. -/
+theorem C09_first_line_example :
+    runSteps 4 defaultSteps "    \nfoo".toList = runSteps 4 defaultSteps "\nfoo".toList := by decide
+
+example : normalize 4 "    \nfoo".toList = normalize 4 "\nfoo".toList := by decide
+example : normalize 4 "    \nfoo".toList = "\nfoo\n\n".toList := by decide
+example : normalize 8 " \t\x02\r\n    foo".toList = "\n    foo\n\n".toList := by decide
 
 /-! ### (e) what the normalised text is made of -/
 
@@ -184,17 +198,14 @@ example : runSteps 4 defaultSteps ("a\r\x02".toList ++ List.replicate 1 '\n') = 
   decide
 
 /-- **Leading line feeds.**  `k` more line feeds in front of the source are `k` more line feeds in front of the
-    normalised text, when the first line of the source is empty or has a character other than space and tab
-    (`firstLineOk`; otherwise see F-C09-1: the added line feed makes the regular expression match that line). -/
-theorem C09_leading_blank (tab : Nat) (s : Str) (k : Nat) (h : firstLineOk s = true) :
+    normalised text — unconditionally.  (Before the repair a0e7e3c of F-C09-1 this needed the first line of the
+    source to be empty or to have a visible character.) -/
+theorem C09_leading_blank (tab : Nat) (s : Str) (k : Nat) :
     runSteps tab defaultSteps (List.replicate k '\n' ++ s) = List.replicate k '\n' ++ runSteps tab defaultSteps s :=
-  normalize_leading tab s k h
+  normalize_leading tab s k
 
-example : firstLineOk " \t x \n  \n".toList = true ∧ firstLineOk "\x02\r  ".toList = true ∧
-    firstLineOk [] = true ∧ firstLineOk "   \nfoo".toList = false := by decide
-
-/-- the excluded case (F-C09-1 again) -/
-example : runSteps 4 defaultSteps ('\n' :: "  \nfoo".toList) ≠ '\n' :: runSteps 4 defaultSteps "  \nfoo".toList := by
+/-- the formerly excluded case -/
+example : runSteps 4 defaultSteps ('\n' :: "  \nfoo".toList) = '\n' :: runSteps 4 defaultSteps "  \nfoo".toList := by
   decide
 
 /-! ### the blank-document shortcut of `convert` -/
